@@ -32,7 +32,20 @@ func DeepHashTrace(roots map[string]any, modPath string, skip func(name string) 
 	return deepHash(roots, modPath, skip, &tr), tr
 }
 
-func deepHash(roots map[string]any, modPath string, skip func(name string) bool, tr *[]string) uint64 {
+// unstableHashes counts hashes abandoned because the heap changed under the hasher.
+var unstableHashes uint64
+
+func deepHash(roots map[string]any, modPath string, skip func(name string) bool, tr *[]string) (sum uint64) {
+	// The enumeration group hashes a LIVE package: a worker goroutine of the code under test may still be
+	// modifying what is being read (an interface slot cleared between two looks at it). Such a hash is worthless,
+	// not fatal: it is replaced by a value no other hash has, so that callers waiting for two equal consecutive
+	// hashes (quiescence) simply try again.
+	defer func() {
+		if r := recover(); r != nil {
+			unstableHashes++
+			sum = 0xdead000000000000 | unstableHashes
+		}
+	}()
 	hs := &deepHasher{h: fnv.New64a(), ids: map[unsafe.Pointer]int{}, modPath: modPath, tr: tr}
 	names := make([]string, 0, len(roots))
 	for n := range roots {
